@@ -9,11 +9,14 @@ interpretation of the operators satisfying the stated laws, every input and ever
                      (same number of outputs, same element types, ranks, extents, values)
 * `cast_laws_of_C17` : the two cast fields of `Laws` (`cast_same`, `cast_rt`) hold for every
                      interpretation whose scalar conversion is a `C17.CastSem` (C17's round-trip theorem)
+* `reduce_transpose_of_monoid` : the `reduce_transpose` field of `Laws` holds for keepdims reductions by
+                     any commutative monoid (concrete `sumAxes` on the tensor model)
 * refutations: the rewrites the validator must *not* accept (side operand not transposed,
   intermediate observed as output) really change results — concrete counter-models
 -/
 import J2O.Lemmas.C02Rules
 import J2O.Lemmas.C02C17
+import J2O.Lemmas.Reduce
 
 namespace J2O.C02
 open J2O Term
@@ -108,6 +111,29 @@ theorem cast_laws_of_C17 (C : C17.CastSem) :
       simp only [castSOf, hsm, hms, if_false]
       exact C17.castOk_roundtrip C _ _ hok _ (hwt i)
 
+
+/-! ### The reduction law is a theorem for reductions by a commutative monoid -/
+
+/-- **`reduce_transpose` is a theorem, not an assumption, for every interpretation whose keepdims
+    reductions are sums in a commutative monoid** (ReduceSum over exact numbers, ReduceProd, ReduceMax/
+    Min with a neutral element, logical and/or): all tensors, ranks, valid permutations, axis lists.
+    (Floating-point re-association inside one reduction is outside the model.) -/
+theorem reduce_transpose_of_monoid {β : Type} [AddCommMonoid β] (J : Interp β)
+    (hJ : ∀ nm axes t, J.reduce nm axes t = sumAxes axes t) :
+    ∀ nm axes p (t : Tensor β), validPerm p = true → t.rank = p.length →
+      (∀ a ∈ axes, a < p.length) →
+      J.reduce nm axes (transpose p t) =
+        transpose p (J.reduce nm (sortNat (axes.map (permFn p))) t) := by
+  intro nm axes p t hp _ _
+  rw [hJ, hJ]
+  exact sumAxes_transpose_sorted p hp axes t
+
+/-- the concrete reduction computes row sums / the total of a 2×3 matrix (non-vacuity of `sumAxes`) -/
+def m23 : Tensor Int := ⟨7, 2, fun k => [2, 3].getD k 1, fun i => 10 * i 0 + i 1⟩
+
+example : (sumAxes [1] m23).get (fun _ => 0) = 0 + 1 + 2 ∧ (sumAxes [1] m23).dim 1 = 1 ∧
+    (sumAxes [1] m23).dim 0 = 2 ∧ (sumAxes [0, 1] m23).get (fun _ => 5) = 0 + 1 + 2 + 10 + 11 + 12 := by
+  simp [sumAxes, sumAxis, m23, upd, Finset.sum_range_succ]
 
 /-! ### Non-vacuity: a concrete interpretation satisfying the laws, and concrete verdicts -/
 
